@@ -125,7 +125,9 @@ pub fn exec_case<H: Harness>(h: &H, case: &H::Case, record: bool) -> (Option<Vio
         Err(_) => {
             let (loc, msg) = take_last_panic().unwrap_or(("?".into(), "panic".into()));
             let msg: String = msg.chars().take(300).collect();
-            Some(Violation::new("panic", &loc, format!("uncaught panic at {}: {}", loc, msg)))
+            // a panic raised by the harness's own dispatch tables is a harness error, not a finding
+            let class = if msg.contains("not in list") || msg.contains("not in this check's list") { "harness" } else { "panic" };
+            Some(Violation::new(class, &loc, format!("uncaught panic at {}: {}", loc, msg)))
         }
     };
     if let Some(v) = &v {
